@@ -237,6 +237,13 @@ ASSUME \A a \in {<<1, 2, 2>>, <<1, 1, 1>>, <<0, 0, -1>>} :
          /\ AAOk(a, g) /\ IsRotation3(R) /\ MatVec(R.n, a) = ScalV(R.d, a)
          /\ REq(R, AxisRot(ScalV(-1, a), [g EXCEPT !.sg = -g.sg]))
 
+\* half way between two unit quaternions of equal norm lies their normalised sum: the rotation from p
+\* to the sum, applied twice, is the rotation from p to q
+ASSUME \A p, q \in {x \in LatQ : SumSq(x) = 2} :
+         Dot(p, q) \notin {2, -2} =>
+            LET h == AddV(p, q)
+                r == RMul(RT(QuatMat(p)), QuatMat(h)) IN
+            REq(RMul(r, r), RMul(RT(QuatMat(p)), QuatMat(q)))
 \* ============================================================ record predicates
 \* a homogeneous 4x4 whose linear part is a rotation and whose translation is zero
 PureRot4(M) == IsAffine(M, 3) /\ NoTranslation(M, 3)
@@ -419,6 +426,116 @@ OkAlign(c) ==
     ELSE IF ~IsRotation3(RSub(c.res, 3)) THEN "orthonormal_det_plus_one"
     ELSE "ok"
 
+\* =============================================================== audit families
+\* (inputs outside the quarter-turn / Pythagorean lattice of the first build: near-identity matrices on
+\* large coordinates, matrices carrying rounding noise, small angles, optional arguments, produced
+\* rotations with irrational entries whose Gram matrix / determinant / images the harness snapped)
+
+\* transform_points(pts, I + 2^-sh J, translate) with integer points: delta = (res - pts) 2^sh.
+\* J is k x (k+1): the last column is the (scaled) translation.
+OkTransformPointsNI(c) ==
+    LET k == c.dim  J == Rat(c.J, 1) IN
+    IF Len(c.J) # k \/ (\E r \in 1..k : Len(c.J[r]) # k + 1) \/ (\E j \in 1..Len(c.pts) : Len(c.pts[j]) # k)
+       THEN "BADINPUT"
+    ELSE IF Len(c.delta) # Len(c.pts) THEN "shape"
+    ELSE IF \E j \in 1..Len(c.pts) : c.delta[j] # Image(J, c.pts[j], c.translate)
+         THEN (IF c.translate THEN "homogeneous_multiplication_by_near_identity_matrix"
+               ELSE "linear_part_only_of_near_identity_matrix")
+    ELSE "ok"
+
+\* euler_matrix(*euler_from_matrix(M', axes), axes) -> R2 where M' is the exact rotation M presented with
+\* rounding noise of a few ulp, as a list, a 3x3 block, ...   (q = <<>>: M is a cube rotation)
+OkEulerRoundTripM(c) ==
+    IF c.axes \notin ConvNames \/ ~PureRot4(c.M) THEN "BADINPUT"
+    ELSE IF Len(c.q) = 4 /\ ~REq(c.M, Hom(QuatMat(c.q), <<0, 0, 0>>, 1)) THEN "BADINPUT"
+    ELSE IF Len(c.q) = 0 /\ ~(IsIntegral(c.M) /\ Sub(AsInt(c.M), 3) \in Cube24) THEN "BADINPUT"
+    ELSE IF ~PureRot4(c.R2) THEN "homogeneous_rotation_without_translation"
+    ELSE IF ~REq(c.R2, c.M) THEN "euler_matrix_of_euler_from_matrix_is_the_matrix"
+    ELSE "ok"
+
+\* rotation_matrix(*rotation_from_matrix(M)) -> R2, M the rotation of the integer quaternion q about pt
+OkRotationRoundTripQ(c) ==
+    IF SumSq(c.q) = 0 \/ Len(c.pt) \notin {0, 3} THEN "BADINPUT"
+    ELSE IF ~REq(c.M, IF Len(c.pt) = 0 THEN Hom(QuatMat(c.q), <<0, 0, 0>>, 1) ELSE About(QuatMat(c.q), c.pt))
+         THEN "BADINPUT"
+    ELSE IF ~IsAffine(c.R2, 3) THEN "homogeneous_form"
+    ELSE IF ~REq(c.R2, c.M) THEN "rotation_matrix_of_returned_parameters_is_the_matrix"
+    ELSE "ok"
+
+\* scale_and_translate(scale, translate): "compose_matrix for just scaling then translating"
+OkScaleAndTranslate(c) ==
+    IF Len(c.s4) # 3 \/ Len(c.tr4) # 3 THEN "BADINPUT"
+    ELSE IF ~IsAffine(c.M, 3) THEN "homogeneous_form"
+    ELSE IF ~REq(c.M, ComposeRef(c.s4, <<0, 0, 0>>, <<K(0), K(0), K(0)>>, c.tr4))
+         THEN "equals_compose_matrix_of_the_same_scale_and_translation"
+    ELSE "ok"
+
+\* scene.transforms.kwargs_to_matrix(quaternion | axis, angle | nothing, translation) -> M
+OkKwargs(c) ==
+    LET R == CASE c.kind = "quat" -> QuatMat(c.q) [] c.kind = "axis" -> AxisRot(c.axis, c.g) [] OTHER -> RId(3) IN
+    IF (c.kind = "quat" /\ SumSq(c.q) = 0) \/ (c.kind = "axis" /\ ~AAOk(c.axis, c.g)) \/ Len(c.tr) # 3 THEN "BADINPUT"
+    ELSE IF ~IsAffine(c.M, 3) THEN "homogeneous_form"
+    ELSE IF ~IsRotation3(RSub(c.M, 3)) THEN "orthonormal_det_plus_one"
+    ELSE IF ~REq(c.M, Hom(R, c.tr, 1)) THEN "matrix_of_the_given_representation_then_translation"
+    ELSE "ok"
+
+\* quaternion_slerp(q0/|q0|, q1/|q1|, f2/2, 0, shortest) -> r for |q0| = |q1|: the end points, and half way
+\* the normalised sum (of q0 and -q1 when the shorter way round is asked for and q0.q1 < 0)
+OkSlerp(c) ==
+    LET d == Dot(c.q0, c.q1)  n == SumSq(c.q0)
+        mid == IF d = n \/ d = -n THEN c.q0
+               ELSE IF c.shortest /\ d < 0 THEN SubV(c.q0, c.q1) ELSE AddV(c.q0, c.q1)
+        want == CASE c.f2 = 0 -> c.q0 [] c.f2 = 2 -> c.q1 [] OTHER -> mid IN
+    IF n = 0 \/ SumSq(c.q1) # n \/ c.f2 \notin {0, 1, 2} THEN "BADINPUT"
+    ELSE IF ~UnitQ(c.r) THEN "unit_norm"
+    \* orthogonal quaternions: both ways round are equally short, either half-way rotation is accepted
+    ELSE IF c.f2 = 1 /\ d = 0 /\ c.shortest /\ REq(QuatMat(c.r.v), QuatMat(SubV(c.q0, c.q1))) THEN "ok"
+    ELSE IF ~REq(QuatMat(c.r.v), QuatMat(want)) THEN "interpolated_rotation"
+    ELSE "ok"
+
+\* geometry.align_vectors(a, b[, return_angle]) -> T with |a| = la, |b| = lb integers;
+\* gram = T33 T33^T, det, last row, translation column and img = lb T33 a snapped by the harness
+OkAlignG(c) ==
+    IF c.la <= 0 \/ c.lb <= 0 \/ c.la * c.la # SumSq(c.a) \/ c.lb * c.lb # SumSq(c.b) THEN "BADINPUT"
+    ELSE IF c.last # <<0, 0, 0, 1>> \/ c.tcol # <<0, 0, 0>> THEN "homogeneous_rotation_without_translation"
+    ELSE IF c.gram # Id(3) \/ c.det # 1 THEN "orthonormal_det_plus_one"
+    ELSE IF c.img # ScalV(c.la, c.b) THEN "rotates_a_onto_b"
+    ELSE "ok"
+
+\* geometry.plane_transform(origin, normal) -> T: normal goes to +z, plane points go to height 0
+OkPlaneTransform(c) ==
+    IF c.ln <= 0 \/ c.ln * c.ln # SumSq(c.n) \/ Dot(c.n, c.u) # 0 THEN "BADINPUT"
+    ELSE IF c.last # <<0, 0, 0, 1>> THEN "homogeneous_form"
+    ELSE IF c.gram # Id(3) \/ c.det # 1 THEN "orthonormal_det_plus_one"
+    ELSE IF c.imgn # <<0, 0, c.ln>> THEN "normal_goes_to_z"
+    ELSE IF c.z # <<0, 0>> THEN "plane_goes_to_height_zero"
+    ELSE "ok"
+
+\* random_rotation_matrix / random_quaternion: every produced matrix is a rotation, every quaternion a unit
+OkRandomRotation(c) ==
+    IF Len(c.grams) # c.num \/ Len(c.dets) # c.num \/ Len(c.qq) # c.num THEN "count"
+    ELSE IF \E j \in 1..c.num : c.lasts[j] # <<0, 0, 0, 1, 0, 0, 0>> THEN "homogeneous_rotation_without_translation"
+    ELSE IF \E j \in 1..c.num : c.grams[j] # Id(3) \/ c.dets[j] # 1 THEN "orthonormal_det_plus_one"
+    ELSE IF \E j \in 1..c.num : c.qq[j] # 1 THEN "unit_norm"
+    ELSE "ok"
+
+\* fix_rigid(M + noise below max_deviance) -> orthonormal again, translation kept, within 1e-5 of its input
+OkFixRigid(c) ==
+    LET k == c.dim IN
+    IF ~IsAffine(c.M, k) THEN "BADINPUT"
+    ELSE IF c.last # [j \in 1..(k + 1) |-> IF j = k + 1 THEN 1 ELSE 0] THEN "homogeneous_form"
+    ELSE IF c.gram # Id(k) \/ c.det # 1 THEN "orthonormal_det_plus_one"
+    ELSE IF c.tr # TransCol(c.M, k) THEN "translation_kept"
+    ELSE IF c.dev5 # 0 THEN "close_to_the_input"
+    ELSE "ok"
+
+\* is_rigid(M) on exact matrices: rotations with translation are rigid, scalings and shears are not
+IsOrthogonal3(A) == A.d > 0 /\ IsSquare(A.n, 3) /\ Mul(A.n, Transpose(A.n)) = Scal(A.d * A.d, Id(3))
+OkIsRigid(c) ==
+    IF ~IsAffine(c.M, 3) THEN "BADINPUT"
+    ELSE IF c.res # IsOrthogonal3(RSub(c.M, 3)) THEN "rigid_iff_linear_part_orthonormal"
+    ELSE "ok"
+
 Clause(c) ==
     CASE c.fn = "euler_matrix" -> OkEulerMatrix(c)
       [] c.fn = "euler_from_matrix" -> OkEulerFromMatrix(c)
@@ -441,6 +558,18 @@ Clause(c) ==
       [] c.fn = "planar_matrix" -> OkPlanar(c)
       [] c.fn = "planar_matrix_to_3D" -> OkPlanarTo3D(c)
       [] c.fn = "align_vectors" -> OkAlign(c)
+      [] c.fn = "transform_points_ni" -> OkTransformPointsNI(c)
+      [] c.fn = "euler_roundtrip_m" -> OkEulerRoundTripM(c)
+      [] c.fn = "rotation_roundtrip_q" -> OkRotationRoundTripQ(c)
+      [] c.fn = "scale_and_translate" -> OkScaleAndTranslate(c)
+      [] c.fn = "kwargs_to_matrix" -> OkKwargs(c)
+      [] c.fn = "quaternion_slerp" -> OkSlerp(c)
+      [] c.fn = "align_g" -> OkAlignG(c)
+      [] c.fn = "plane_transform" -> OkPlaneTransform(c)
+      [] c.fn = "random_rotation" -> OkRandomRotation(c)
+      [] c.fn = "fix_rigid" -> OkFixRigid(c)
+      [] c.fn = "is_rigid" -> OkIsRigid(c)
+      [] c.fn = "spherical_matrix" -> OkEulerMatrix(c)
       [] OTHER -> "unknown_function"
 
 Init == i = 1
@@ -463,7 +592,7 @@ Report == LET c == Cases[i]
 
 \* internal sanity of the reference on the recorded inputs: what the spec expects is itself a rotation
 RefSane == LET c == Cases[i] IN
-           /\ (c.fn \in {"euler_matrix", "quaternion_from_euler", "quaternion_from_euler_m"} /\ c.axes \in ConvNames
+           /\ (c.fn \in {"euler_matrix", "quaternion_from_euler", "quaternion_from_euler_m", "spherical_matrix"} /\ c.axes \in ConvNames
                   /\ Angs3Ok(c.ang)) => IsRotation3(EulerRef(c.axes, c.ang))
            /\ (c.fn \in {"quaternion_matrix", "euler_from_quaternion", "quaternion_inverse"} /\ SumSq(c.q) > 0)
                   => IsRotation3(QuatMat(c.q))
